@@ -399,7 +399,18 @@ def plant_corners(spec, rng):
     countries of equal carbon intensity, a journey in which no time is spent, a job not placed in any step"""
     out = copy.deepcopy(spec)
     pats = list(out["patterns"])
-    if len(pats) >= 2:
+    if len(pats) >= 2 and rng.random() < 0.3:
+        # two usage patterns on two different networks that carry the same name (names are free text, not keys)
+        p0, p1 = pats[0], pats[1]
+        n0 = out["patterns"][p0]["network"]
+        if out["patterns"][p1]["network"] == n0:
+            nm = f"n{len(out['networks'])}"
+            out["networks"][nm] = copy.deepcopy(out["networks"][n0])
+            bei = out["networks"][nm]["bandwidth_energy_intensity"]
+            out["networks"][nm]["bandwidth_energy_intensity"] = Q(round(bei["m"] * 1.9, 9), bei["u"])
+            out["patterns"][p1]["network"] = nm
+        out["networks"][out["patterns"][p1]["network"]]["display_name"] = out["networks"][n0].get("display_name", n0)
+    elif len(pats) >= 2:
         p0, p1 = pats[0], pats[1]
         out["patterns"][p1]["network"] = out["patterns"][p0]["network"]
         if out["patterns"][p1]["country"] == out["patterns"][p0]["country"]:
@@ -427,6 +438,12 @@ def plant_corners(spec, rng):
             out["patterns"][pats[0]]["devices"] = p0d + [nm]
             p0d = out["patterns"][pats[0]]["devices"]
         out["devices"][p0d[1]]["display_name"] = out["devices"][p0d[0]].get("display_name", p0d[0])
+    # two servers / storages / jobs / countries / usage patterns that carry the same name
+    for kind in ("servers", "storages", "jobs", "countries", "patterns"):
+        names_ = [n_ for n_ in out[kind] if not str(n_).endswith(("_out", "_free", "_idle"))]
+        if len(names_) >= 2 and rng.random() < 0.3:
+            a_, b_ = names_[0], names_[-1]
+            out[kind][b_]["display_name"] = out[kind][a_].get("display_name", a_)
     # a journey that goes through one of its steps twice
     uj0 = out["patterns"][pats[0]]["usage_journey"]
     if rng.random() < 0.6 and len(out["journeys"][uj0]["uj_steps"]) < 5:
